@@ -70,6 +70,9 @@ func (c *OCSPRevocationChecker) IsRevoked(clientCertificate *x509.Certificate, v
 		return nil, err
 	}
 	certCandidates, err := core.FindCertificateIssuerCandidates(issuer, &clientCertificate.Extensions, issuerPublicKeyAlgorithm(clientCertificate), chains)
+	//the presented certificate is part of the chains but never its own issuer: a client whose certificate carries the
+	//name of its CA must not be able to answer about itself
+	certCandidates = withoutCertificate(certCandidates, clientCertificate)
 	ocspServerList := c.filterHTTPOCSPServers(clientCertificate.OCSPServer)
 	var output []byte = nil
 	for _, ocspServer := range ocspServerList {
@@ -115,6 +118,17 @@ func (c *OCSPRevocationChecker) IsRevoked(clientCertificate *x509.Certificate, v
 		}, nil
 	}
 
+}
+
+// withoutCertificate returns the candidates which are not the given certificate
+func withoutCertificate(candidates []*core.CertificateChainEntry, certificate *x509.Certificate) []*core.CertificateChainEntry {
+	remaining := make([]*core.CertificateChainEntry, 0, len(candidates))
+	for _, candidate := range candidates {
+		if bytes.Equal(candidate.RawCertificate, certificate.Raw) == false {
+			remaining = append(remaining, candidate)
+		}
+	}
+	return remaining
 }
 
 // issuerPublicKeyAlgorithm returns the algorithm of the key which signed the certificate, this is the key algorithm
